@@ -12,7 +12,7 @@ NO_SHRINK = True
 PROP = {
     "id": "C11",
     "quick_n": 300,
-    "thorough_n": 4000,
+    "thorough_n": 3000,
     "rule": "one program = tree spec whose quantities are lambdas, defs and string expressions, plain, "
             "named and cached in every wrapper order; a state reached by fills (dict records), "
             "optionally +, *, copy or a JSON reload; its pickle clone; then original and clone are "
